@@ -846,6 +846,22 @@ func (m *Machine) abstractConstMul(x, y value, bits int) (value, bool) {
 		}
 		m.addPC(tt.Implies(isZero(p), tt.Or(isZero(X), tt.App("fp.leq", sortBool, absX, lit(small)))))
 		m.addPC(tt.Implies(isInf(p), tt.Or(isInf(X), tt.App("fp.geq", sortBool, absX, lit(big)))))
+		// congruence with earlier abstracted products by the same constant
+		key := math.Float64bits(cf)
+		for _, prev := range m.absProducts[key] {
+			if prev.bits == bits {
+				m.addPC(tt.Implies(tt.Eq(X, prev.x), tt.Eq(p, prev.p)))
+			}
+		}
+		if m.absProducts == nil {
+			m.absProducts = map[uint64][]absProduct{}
+		}
+		m.absProducts[key] = append(m.absProducts[key], absProduct{x: X, p: p, bits: bits})
 	}
 	return symFloat{p, bits}, true
+}
+
+type absProduct struct {
+	x, p *Term
+	bits int
 }
